@@ -11,7 +11,7 @@ interpreter actor).  On rejection nothing may have run: no marker, no probe reco
 
 Sub-checks: `matrix` (exhaustive: syntactic context x defined type x chain of indirection), `scope` (exhaustive:
 definition phase x use phase x order x file order / split phases; duplicates; builtin names), `programs` (random
-symbol programs with at most one fault).  Defect model KF-C08-1: see check().
+symbol programs with at most one fault).
 """
 import os
 
@@ -53,9 +53,6 @@ ASSUMPTIONS = [
     'how often a program inside a value runs is checked only where the manual fixes it: not for `env NAME = '
     '-stdout-from ...` (one run per environment, C11), `stdin = ...` of [setup] (produced at the instruction or when '
     'the action starts), transformations of a program whose output nobody reads (label invocations-unknown)',
-    'side finding, not C08: the own -stdin of a `run PROGRAM` transformer and a model that is the unprocessed output '
-    'of another program reach the program in the opposite order (concat.write_to, unflushed buffer); the stdin of '
-    'such an invocation is not compared',
     'here-documents are not generated as arguments inside [act] (its lines belong to the actor: an empty line of the '
     'here-document is dropped there - C10)',
     'current directory = act directory in every phase (no cd is generated), so -rel-cd paths have one value',
@@ -260,16 +257,6 @@ def check(case) -> Verdict:
         expect = {'PASS'}
         labels.append('verdict:accepted')
 
-    if (ident == 'INTERNAL_ERROR' and out is not None and out.kf1 and 'PASS' in expect
-            and "'NoneType' object is not subscriptable" in r.err and 'parse_regex.py' in r.err
-            and ('In [%s]' % out.kf1[0][0]) in r.err):
-        # defect model KF-C08-1: the first executed instruction that validates a REGEX containing a reference to a
-        # path of the home directory structure crashes (SdvValidatorFromDdvValidator builds TestCaseDs(None, sds))
-        d = dict(detail)
-        d['defect_model'] = ('REGEX built from a home-directory path; instruction %s is the first one that '
-                             'validates it' % (out.kf1[0],))
-        return Verdict(ok=False, known='KF-C08-1', bucket='known/regex-with-home-path/INTERNAL_ERROR', detail=d,
-                       labels=labels + ['known:KF-C08-1'], nontrivial=nontrivial)
     if ident not in expect:
         cls = 'rejected' if val.error is not None else ('either' if soft else 'accepted')
         kind = val.error['kind'] if val.error else 'none'
